@@ -69,7 +69,10 @@ def synth_index(rng):
         e = {}
         if rng.random() < 0.95:
             e['license_key'] = rng.choice(words) + rng.choice(['', '', '-x', '+'])
-        if rng.random() < 0.8:
+        if rng.random() < 0.25 and e.get('license_key'):
+            # the same key in both tables: the two Licensings then differ only by their aliases
+            e['spdx_license_key'] = e['license_key']
+        elif rng.random() < 0.8:
             e['spdx_license_key'] = rng.choice([w.upper() for w in words] + ['LicenseRef-a']) + rng.choice(['', '', '-only'])
         if rng.random() < 0.5:
             e['other_spdx_license_keys'] = [rng.choice(words) + '-alias' + rng.choice(['', '2']) for _ in range(rng.randint(0, 2))]
@@ -79,6 +82,58 @@ def synth_index(rng):
             e['is_deprecated'] = rng.random() < 0.3
         idx.append(e)
     return idx
+
+
+def synth_names(sidx, spdx):
+    """Independent reading of the index format: (canonical key, names, exception flag) of every active entry; names that
+    two entries share (ignoring case) are left out."""
+    ents = []
+    for e in sidx:
+        if e.get('is_deprecated', False):
+            continue
+        if spdx:
+            if not e.get('spdx_license_key'):
+                continue
+            key = e['spdx_license_key']
+            names = [key] + [' '.join(a.split()) for a in e.get('other_spdx_license_keys', []) or [] if a and a.strip()]
+        else:
+            key = e.get('license_key', '')
+            names = [key]
+        ents.append((key, names, bool(e.get('is_exception', ''))))
+    owners = {}
+    for key, names, exc in ents:
+        for n in set(x.lower() for x in names):
+            owners.setdefault(n, []).append(key)
+    return [(key, [n for n in dict.fromkeys(names) if len(owners[n.lower()]) == 1], exc) for key, names, exc in ents]
+
+
+def sweep_synth(L, ents, le):
+    for key, names, exc in ents:
+        for n in names:
+            for v in (n, n.lower(), n.upper()):
+                try:
+                    e = L.parse(v)
+                    if not isinstance(e, le.LicenseSymbol) or e.key != key or bool(e.is_exception) != exc or str(e) != key:
+                        return 'name %r of entry %r parses to %r' % (v, key, e)
+                    if L.validate(v, strict=False).errors or L.unknown_license_keys(v):
+                        return 'name %r of entry %r does not validate' % (v, key)
+                except Exception as ex:   # noqa
+                    return 'name %r of entry %r raised %s: %s' % (v, key, type(ex).__name__, ex)
+    return None
+
+
+def check_synth_names(sidx, le):
+    """Both Licensings of one synthetic index, built and used in the same process, recognise their own names."""
+    try:
+        SC = le.build_licensing(sidx)
+        SP = le.build_spdx_licensing(sidx)
+    except Exception:   # noqa
+        return None
+    for L, spdx in ((SC, False), (SP, True), (SC, False)):
+        err = sweep_synth(L, synth_names(sidx, spdx), le)
+        if err:
+            return ('spdx: ' if spdx else 'scancode: ') + err
+    return None
 
 
 def enc_index(idx):
@@ -178,6 +233,13 @@ def run(rep, tier, seed):
                 rep.violations.append({'key': 'synthetic', 'kind': 'index', 'index': sidx, 'text': json.dumps(sidx),
                                        'what': 'build_licensing known keys %r, expected %r' % (g1[1], want_sc)})
                 continue
+        if g1[0] == 0 and g2[0] == 0:
+            rep.count('synthetic_names_swept')
+            err = check_synth_names(sidx, le)
+            if err:
+                rep.violations.append({'key': 'synthetic-names', 'kind': 'index-names', 'index': sidx, 'text': json.dumps(sidx),
+                                       'what': 'Licensings built from a synthetic index: ' + err})
+                continue
         rep.compared += 1
         def canon(o):
             if o[0] == 2:
@@ -197,4 +259,7 @@ def replay(payload):
         except Exception as ex:   # noqa
             return False, repr(ex)
         return ok, 'parses to %s' % e
+    if payload.get('kind') == 'index-names':
+        err = check_synth_names(payload['index'], le)
+        return err is None, err or 'every name of the synthetic index is recognised'
     return True, 'nothing to replay'
